@@ -47,6 +47,11 @@ CHECKS = {
          "DESIGN.md §7 C05",
          "go/types is the oracle. Exhaustive only for the stated universe and constant list (chosen to contain every boundary of every integer and float kind).",
          "exhaustive small-scope enumeration (finite grid) against go/types; known deviations pinned point by point"),
+ "C04": ("exploration",
+         "Generated constant-expression trees (every untyped kind, typed constants of every basic kind, boundary and > 64-bit values, all operators, shifts with every kind of count, len/cap/min/max/complex/real/imag/unsafe.*, conversions, non-constant look-alikes) are placed in const declarations, iota blocks, var initialisers and array lengths and driven through the builder with the per-subexpression tracer: a constant expression go/types rejects must be rejected; otherwise the builder's constant value must be present exactly when go/types has one and be exactly equal, and declared constants and array lengths must agree. Deviations of the tree (typed-constant folding, conversions keeping the operand's value, builtin constant-ness, big-number typing of the XGo configuration) are listed findings.",
+         "DESIGN.md §7 C04",
+         "go/types and go/constant are the oracle; both sides compute with go/constant, so agreement in its last bits is by construction. unsafe sizes follow go/types' gc sizes for the host.",
+         "property-based testing: grammar-based constant expressions, per-subexpression differential against go/types/go/constant"),
  "C19": ("exploration",
          "Model-based state-machine testing (rapid): random Set/Delete/At/Len/Keys/Iterate/String histories over a pool of generated type keys containing structurally identical but pointer-distinct rebuilds, aliases, permuted/flattened interfaces, permuted unions, renamed type parameters, separately created instantiations, deliberate hash-collision twins and same-named foreign types; after every step every observable is compared with an association list over types.Identical, and Identical=>equal-hash is checked on all pool pairs. Sampling, not proof: right level because the property quantifies over unbounded histories and type shapes.",
          "DESIGN.md §7 C19",
